@@ -522,10 +522,10 @@ class SymbolicTensorNetwork:
                 if bid not in self.bonds:
                     if verbose: print(f"Consistency check failed: bond with ID {bid} referenced by tensor {k} does not exist.")
                     return False
-                # bond must refer back to tensor and corresponding axis
+                # bond must refer back to tensor, once for every axis of the tensor attached to it
                 bond = self.bonds[bid]
-                if tensor.tid not in bond.tids:
-                    if verbose: print(f"Consistency check failed: bond with ID {bid} does not refer to tensor {tensor.tid}.")
+                if bond.tids.count(tensor.tid) != tensor.bids.count(bid):
+                    if verbose: print(f"Consistency check failed: bond with ID {bid} does not refer to tensor {tensor.tid} once per attached axis.")
                     return False
         for k, bond in self.bonds.items():
             if k != bond.bid:
